@@ -5,6 +5,7 @@ Prefix token grammar (all numbers decimal):
   lit   ::= i <int> | b <0|1> | n | s <k>
   val   ::= lit | y <k> | e <tag> <int> | L <n> val* | T <n> val* | Q <n> val*
           | D <n> (lit val)* | M <n> (lit val)* | O <cls> <n> (<attr> (v val | r))*
+          | DS <n> (lit val)* | DG <n> (lit val)* <m> (lit val)* | U <kind> <n> val* | z <kind> <k>
   key   ::= l lit | k <idx>
   cls   ::= u <idx> | int | bool | str | list | tuple | dict | nontype
   pat   ::= l lit | k <idx> | c <name> | w | S <np> pat* <star:-1|-2|name> <nq> pat*
@@ -55,6 +56,22 @@ def pVal : Nat → P Val
         let (n, r) ← pNat r
         let (xs, r) ← pMany (fun r => do let (k, r) ← pLit r; let (v, r) ← pVal fuel r; pure ((k, v), r)) n r
         pure (.lmap xs, r)
+      | "DS" => do
+        let (n, r) ← pNat r
+        let (xs, r) ← pMany (fun r => do let (k, r) ← pLit r; let (v, r) ← pVal fuel r; pure ((k, v), r)) n r
+        pure (.dsub xs, r)
+      | "DG" => do
+        let (n, r) ← pNat r
+        let (xs, r) ← pMany (fun r => do let (k, r) ← pLit r; let (v, r) ← pVal fuel r; pure ((k, v), r)) n r
+        let (m, r) ← pNat r
+        let (ys, r) ← pMany (fun r => do let (k, r) ← pLit r; let (v, r) ← pVal fuel r; pure ((k, v), r)) m r
+        pure (.dget xs ys, r)
+      | "U" => do
+        let (kind, r) ← pNat r
+        let (n, r) ← pNat r
+        let (xs, r) ← pMany (pVal fuel) n r
+        pure (.useq kind xs, r)
+      | "z" => do let (kind, r) ← pNat r; let (k, r) ← pNat r; pure (.ostr kind k, r)
       | "O" => do
         let (c, r) ← pNat r
         let (n, r) ← pNat r
